@@ -56,6 +56,13 @@ def _exec_checked(profile, case, known):
             res = profile.execute(case)
         if not res.io_events:
             res.io_events = simfs.EVENTS[0] - ev0
+    except simfs.NoProgress as exc:
+        from .core import Result
+        from .compare import V
+        res = Result()
+        res.sig = ['no-progress']
+        res.violations.append(V('%s.no-progress' % profile.PROP, 'a read loop does not terminate: %s' % exc))
+        res.ev('no-progress', str(exc))
     except Exception as exc:
         # an exception that escapes from library code through a harness path that does not expect one is the
         # library misbehaving (on the unchanged tree no check raises), not a harness error
